@@ -19,6 +19,9 @@ pub struct CheckArgs {
     pub verif_dir: String,
     pub write_evidence: bool,
     pub log_hashes: bool,
+    /// tools only (robustness sweeps over mutants): report violations with regenerating replay
+    /// files, skip minimisation
+    pub no_shrink: bool,
 }
 
 struct WorkerSlot {
@@ -516,7 +519,7 @@ pub fn check(spec: &PropSpec, a: &CheckArgs) -> i32 {
         let mut shrunk = false;
         // minimise at most 4 signatures per check (each costs up to two minutes); the others
         // get a replay file that regenerates the run from its seed
-        if !supervision && n_viol <= 4 {
+        if !supervision && n_viol <= 4 && !a.no_shrink {
             let exe = std::env::current_exe().unwrap();
             let mut cmd = Command::new(exe);
             cmd.arg("shrink")
